@@ -254,4 +254,4 @@ extern "C" void hq_invoke_b_zero(void) { invoke_b_harness<1>(); }
 #define RQ(tier, N) extern "C" void tier##_request_n##N(void) { request_harness<N>(); }
 RQ(hq, 0) RQ(hq, 5) RQ(hq, 9) RQ(hq, 12) RQ(hq, 14) RQ(ht, 10) RQ(ht, 11) RQ(ht, 13) RQ(ht, 16) RQ(ht, 19)
 #define RB(tier, N) extern "C" void tier##_request_b_n##N(void) { request_b_harness<N>(); }
-RB(hq, 1) RB(hq, 5) RB(hq, 7) RB(hq, 9) RB(ht, 6) RB(ht, 8) RB(ht, 11) RB(ht, 12)
+RB(hq, 1) RB(hq, 5) RB(hq, 7) RB(hq, 9) RB(hq, 11) RB(ht, 6) RB(ht, 8) RB(ht, 12) RB(ht, 13)
